@@ -166,7 +166,7 @@ func splitMsg(m string) (first, rest string, eol bool) {
 	return m, "", eol
 }
 
-// colour-mode value check: like logfmt, except times and the %v fallback are bare
+// colour-mode value check: like logfmt, except times are bare
 func matchColorLeaf(v GVal, raw string) string {
 	switch v.Kind {
 	case "time":
@@ -188,7 +188,7 @@ func matchColorLeaf(v GVal, raw string) string {
 		return ""
 	case "struct", "map":
 		want := fmt.Sprintf("{{%v}}", v.Go())
-		if raw == want || raw == strconv.Quote(want) {
+		if raw == strconv.Quote(want) { // quoted in colour mode too since /repo 0c009c6
 			return ""
 		}
 		return fmt.Sprintf("kind %s: printed %q", v.Kind, raw)
